@@ -41,6 +41,14 @@ ASSUMPTIONS = [
 def option_vector(rng, bias=None):
     v = {}
     r = rng.random()
+    if bias == "delay" and r < 0.5:
+        # a small fixed-point budget against a delay line: failure / growth has to travel through the copies
+        v = {"type_fp_iterations": rng.choice([1, 1, 2, 3])}
+        if rng.random() < 0.3:
+            v["_force_cyclic"] = True
+        return v
+    if bias == "delay":
+        bias = "linear"
     if bias == "cubic":
         v = {"numeric_croots": True, "numeric_eps": rng.choice([1e-6, 1e-10])}
         if rng.random() < 0.4:
@@ -133,9 +141,9 @@ def linear_system_program(rng):
 def delay_line_program(rng):
     """acyclic systems with delayed copies (x = y; y = w; w = c): closed forms that only hold from a later iteration on,
     accumulators over products of delayed values, higher moments"""
-    k = rng.choice([2, 3, 3, 4])
-    chain = ["x", "y", "w", "v"][:k]
-    consts = rng.sample([1, 2, 3, 5, 7, -1], k)
+    k = rng.choice([2, 3, 3, 4, 5, 6])
+    chain = ["x", "y", "w", "v", "u", "t"][:k]
+    consts = rng.sample([1, 2, 3, 5, 7, -1], k) if rng.random() < 0.6 else [0] * k
     init = [["assign", v, num(c)] for v, c in zip(chain, consts)] + [["assign", "z", num(0)]]
     rng.shuffle(init)
     copies = [["assign", chain[i], var(chain[i + 1])] for i in range(k - 1)]
@@ -157,7 +165,8 @@ def delay_line_program(rng):
         acc = ["assign", "z", ["add", ["mul", num(rng.choice([2, "1/2"])), var("z")], var(chain[0])]]
     body = copies + [tail]
     body.insert(rng.choice([0, 0, len(body)]), acc)
-    goals = ["z", chain[0]] + (["z**2"] if rng.random() < 0.6 else []) + ([f"{chain[0]}*{chain[1]}"] if rng.random() < 0.4 else [])
+    goals = ["z", chain[0]] + (["z**2"] if rng.random() < 0.5 else []) + ([f"{chain[0]}*{chain[1]}"] if rng.random() < 0.4 else []) \
+        + ([f"{chain[0]}**2"] if rng.random() < 0.6 else [])
     return {"types": [], "init": init, "guard": ["true"], "body": body}, goals
 
 
@@ -197,6 +206,11 @@ def categorical_program(rng):
     it2 = [[["add", var("x"), num(st)] if st else var("x"), gen.fstr(p)] for st, p in zip(steps, p2)]
     if rng.random() < 0.5:
         it2[-1][1] = None
+    if rng.random() < 0.35:
+        # symbolic probabilities p, q (and the last one omitted): closed forms in the parameters
+        for i, name in zip(range(k2 - 1), ["p", "q"]):
+            it2[i][1] = name
+        it2[-1][1] = None
     body.append(["assign", "x", ["choice", it2]])
     r = rng.random()
     if r < 0.5:
@@ -230,7 +244,7 @@ def _program_choice(rng):
     if r < 0.3:
         prog, goals = delay_line_program(rng)
         text = render_program(prog)
-        return {"text": text}, rng.sample(goals, min(len(goals), 3)), "dly:" + hashlib.sha256(text.encode()).hexdigest()[:10], "linear"
+        return {"text": text}, rng.sample(goals, min(len(goals), 3)), "dly:" + hashlib.sha256(text.encode()).hexdigest()[:10], "delay"
     if r < 0.5:
         prog, goals, squares = linear_system_program(rng)
         text = render_program(prog)
